@@ -53,7 +53,7 @@ def run(ctx):
         progs = [json.load(open(ctx.replay))["case"]["program"]]
     else:
         rng = SplitMix(ctx.seed)
-        n = (30 if quick else 300) * (4 if ctx.broken else 1)
+        n = (60 if quick else 400) * (4 if ctx.broken else 1)
         progs = corpus + [mclib.gen_program(rng.fork(i), big=not quick)[0] for i in range(n)]
     refs = mclib.oracle(ctx, drv, progs, cap)
     if refs is None:
